@@ -92,6 +92,29 @@ def check_case(ctx, case, workload="enum"):
         contracts.drain()
         if ok2 and fl2.to_dict() != first:
             ctx.violate("flatten:second-result-depends-on-edits-of-the-first", f"{fl2.to_dict()!r} vs first {first!r}", wit)
+    if ctx.rng.random() < 0.1:
+        # a flattening abandoned at a random line of the library's code (Ctrl-C in the middle of it): the chain is what it was, and the next flattening is right
+        import copy  # noqa: PLC0415
+
+        from .. import trace  # noqa: PLC0415
+
+        fp = trace.Failpoint.get()
+        call = (lambda: dc.flatten(stable_particles=sarg)) if S or stype != "list" else dc.flatten
+        before = copy.deepcopy(dc.to_dict())
+        contracts.drain()
+        _, n = fp.count(call)
+        status, where = fp.inject(ctx.rng.randint(1, max(1, n)), call)
+        contracts.drain()
+        ctx.hit("flatten-abandoned-at-a-random-line:" + status)
+        w6 = {**wit, "abandoned_at": where}
+        if dc.to_dict() != before:
+            ctx.violate("flatten:original-changed-by-an-abandoned-call", f"chain after a flatten abandoned at {where}: {dc.to_dict()!r}, before: {before!r}", w6)
+        ok6, fl6 = ctx.guard("flatten:after-abandoned-call", w6, call)
+        contracts.drain()
+        if ok6:
+            t6 = fl6.decays[m]
+            if Counter({a: b for a, b in dict(t6.daughters).items() if b}) != leaves or not math.isclose(t6.bf, bf, rel_tol=1e-9, abs_tol=1e-290):
+                ctx.violate("flatten:wrong-after-an-abandoned-call", f"flatten after a call abandoned at {where} gave {dict(t6.daughters)} bf={t6.bf}, expected {dict(leaves)} bf={bf}", w6)
     if S and ctx.rng.random() < 0.3:
         # the next question to the same chain, without a stable set: everything is substituted, whatever was asked before
         ctx.hit("flatten-without-stable-set-after-one-with")
